@@ -148,7 +148,7 @@ def inbound(M, F, R, corrupt=None):
                     wire_ct = bytearray(ct)
                     wire_ct[flip % len(wire_ct)] ^= 1 + (flip % 255)
             if corrupt == "length" and decide(j == i):
-                L2 = ex.fresh_int("badlen", 0, 1024)
+                L2 = ex.fresh_int("badlen", 0, 65535)  # any other 16-bit value, also one announcing more than a full frame
                 ex.assume(L2 != L)
                 wire_hdr = le(L2, 2)
             frames.append((pt, L))
@@ -353,7 +353,7 @@ def build(tier, mutate=None):
             bounds={"frames": F, "reads": R, "forged": "any one frame replaced by a different byte string of the same length"},
             regions=["corrupt-body"])
         add("inbound-wrong-length/F=%d,R=%d" % (F, R), inbound, F, R, "length", split=True,
-            bounds={"frames": F, "reads": R, "forged": "any one length prefix replaced by another value 0..1024"},
+            bounds={"frames": F, "reads": R, "forged": "any one length prefix replaced by another value 0..65535"},
             regions=["corrupt-length"])
     add("outbound/n<=%d" % out_max, outbound, out_max, split=True,
         bounds={"payload_len": "0..%d (symbolic)" % out_max, "send_counter": "0..2^40 (symbolic)"},
